@@ -35,6 +35,7 @@ MODELLED = {
     "murmur": "twmb/murmur3 vs NutsModel/C19/Murmur.lean (tie of the concrete hash instance)",
     "slc.update": "vcr/revocation/statuslist2021_verifier.go update + validate (statuslist_total); Verify's per-entry loop is in the model (statuslist_total) but only sampled on the real code",
     "didkey": "vdr/didkey/resolver.go Resolve: checks between the DID string and the library calls (didkey_total)",
+    "jwx.parse": "crypto/jwx.go JWTKidAlg, ParseJWT, ParseJWS: check order between the token bytes and the library's verification (jwx_total, jwx_accepts_only_verified); the jwx library's results are data",
     "cred.presenter": "vcr/credential util.go ResolveSubjectDID, PresenterIsCredentialSubject and resolver.go PresentationSigner, ParseLDProof on every presentation go-did parses (cred_total, cred_presenter_sound); go-did's SubjectDID / ParseDIDURL / UnmarshalProofValue and crypto.JWTKidAlg are data",
     "httpcache.seq": "http/client/caching.go CachingRoundTripper.RoundTrip → responseCache.get/removeExpiredEntries/insert/pop on sequences of GET round trips (httpcache_make_room_terminates — no fuel —, httpcache_roundtrip_total, httpcache_size_invariant); cachecontrol's verdict and the clock are data",
     "didweb.pct": "vdr/didweb/util.go percentDecodeString + percentDecodeChar + isHex + unhex, output compared byte for byte (didweb_percent_decode_total, _length, _only_allowed)",
@@ -54,6 +55,7 @@ REQUIRED = [
     "iblt_bucket_indices_total", "iblt_bucket_indices_exact", "iblt_insert_delete_total", "iblt_decode_terminates", "iblt_decode_fuel_irrelevant", "iblt_decode_total",
     "iblt_handle_set_total", "iblt_zero_buckets_never_divide", "murmur_chain_short_cycles", "iblt_unbounded_chain_hangs",
     "iblt_small_table_hangs_unfixed", "callback_total_in_handler", "callback_empty_envelope_needs_guard", "statuslist_total", "statuslist_guards_needed", "didkey_total", "callback_standalone_partial", "panic_sites_accounted",
+    "fact_jwx", "jwx_total", "jwx_accepts_only_verified", "jwx_guards_needed",
     "fact_cred", "cred_total", "cred_presenter_sound", "cred_guards_needed",
     "fact_httpcache", "httpcache_make_room_terminates", "httpcache_roundtrip_total", "httpcache_unguarded_loop_spins", "httpcache_size_invariant",
     "fact_doc_unmarshal_guarded", "ambassador_callback_total", "ambassador_callback_rejects", "ambassador_null_guard_needed",
